@@ -43,10 +43,11 @@ ASSUMPTIONS = [
 ]
 REQUIRED = {"all": ["figures", "saved_files", "getfig_returns", "phase_markers_checked", "uversky_markers_checked",
                     "multi_marker_figures", "labels_checked", "label_lists_with_some_empty_entries", "limits_below_one", "region_points_checked",
-                    "linear_bar_figures", "long_linear_plots", "net_negative_uversky_saves", "complexity_bar_figures", "numpy_coordinate_arguments", "coincident_markers", "near_threshold_large_N_cases", "figures_after_unclosed_save", "tiny_linear_plots", "homopolymer_figures", "homopolymer_corner_figures", "all_arguments_given_positionally", "label_lists_with_repeated_names", "complexity_plots_with_another_word_size"]}
+                    "linear_bar_figures", "long_linear_plots", "net_negative_uversky_saves", "complexity_bar_figures", "numpy_coordinate_arguments", "coincident_markers", "near_threshold_large_N_cases", "figures_after_unclosed_save", "tiny_linear_plots", "homopolymer_figures", "homopolymer_corner_figures", "all_arguments_given_positionally", "label_lists_with_repeated_names", "complexity_plots_with_another_word_size",
+                    "unlabelled_plot_after_a_labelled_one_on_the_same_object", "linear_plots_of_objects_with_phosphosites"]}
 NFIG = {"quick": 640, "thorough": 4000}
 NMAX = {"quick": 40, "thorough": 90}
-LIMS = [1, 1, 0.5, 0.8, 2, 0.35, 0.3, 0.1]
+LIMS = [1, 1, 0.5, 0.8, 2, 0.35, 0.3, 0.1, 0.395, 0.995, 0.299, 1.25, 0.999, 0.55]
 
 _st = {}
 
@@ -182,7 +183,7 @@ def judge_regions(case, rep, S):
     N = case["N"]
     rng = gen.sub_rng(0, ID, "regions", N)
     polysets = []
-    for lim in [(1, 1), (0.5, 0.5), (0.8, 2), (2, 0.6), (0.3, 1), (1, 0.35), (0.25, 0.25), (0.1, 3)]:
+    for lim in [(1, 1), (0.5, 0.5), (0.8, 2), (2, 0.6), (0.3, 1), (1, 0.35), (0.25, 0.25), (0.1, 3), (0.395, 0.995)]:
         fresh_canvas(force=True)
         o = SP("G" * N)
         ret = o.show_phaseDiagramPlot(xLim=lim[0], yLim=lim[1], getFig=True)
@@ -383,6 +384,12 @@ def judge_figure(case, rep, S):
             snap = run_entry(rep, S, savef.__name__, lambda: savef(path, saveFormat=fmt, **kw), path)
         else:
             snap = run_entry(rep, S, show.__name__, lambda: show(getFig=True, **kw), None)
+        if snap and label and rng.random() < 0.5:
+            # the same object is plotted again without a label: nothing of the earlier call may show
+            snap2 = run_entry(rep, S, show.__name__, lambda: show(getFig=True), None)
+            rep.cnt("unlabelled_plot_after_a_labelled_one_on_the_same_object")
+            if snap2:
+                check_scatter(rep, snap2, kind, show.__name__ + " (second call, no label)", coords, None, {}, False)
         if snap:
             check_scatter(rep, snap, kind, (savef if save else show).__name__, coords, label, kw, False)
             if kind == "phase" and len(snap.get("polygons", [])) == 5:
@@ -479,6 +486,11 @@ def judge_figure(case, rep, S):
             seq = gen.rand_seq(rng, "polyampholyte", lo=1, hi=3)[:rng.randint(1, 3)]      # one to three residues
             rep.cnt("tiny_linear_plots")
         o = SP(seq)
+        sty_ = [i_ + 1 for i_, c_ in enumerate(seq) if c_ in "STY"]
+        if sty_ and rng.random() < 0.3:
+            # phosphosite annotation feeds the phospho-queries only: the profile plots show the sequence as it is
+            o.set_phosphosites(rng.sample(sty_, min(len(sty_), rng.randint(1, 4))))
+            rep.cnt("linear_plots_of_objects_with_phosphosites")
         w = rng.choice([x for x in (1, 2, 5, 6, 10) if x <= len(seq)])        # only windows the sequence can hold
         getter = {"NCPR": "get_linear_NCPR", "FCR": "get_linear_FCR", "Sigma": "get_linear_sigma", "Hydropathy": "get_linear_hydropathy"}[which]
         prof = np.asarray(getattr(SP(seq), getter)(w), dtype=float)
